@@ -1,13 +1,131 @@
 /-
-Oracle ops for the `time` family.  Owned by the slice that models it; see AGENT_GUIDE.md.
+Oracle ops for the `time` family (C04): the integer codecs of arshal_time.go.
+
+  time durB10 <d> <pow10>        -> hex of appendDurationBase10(nil, d, pow10)
+  time pdurB10 <hex> <pow10>     -> "ok <d>" | "E syntax" | "E range"
+  time durISO <d>                -> hex of appendDurationISO8601(nil, d)
+  time pdurISO <hex>             -> "ok <d>" | "inacc <d>" | "E syntax" | "E range"   (prefix "F " when the float branch was used; "U" when the result depends on strconv.ParseFloat of a non-digit fraction)
+  time tunix <sec> <nsec> <pow10>-> hex of appendTimeUnix(nil, time.Unix(sec,nsec), pow10)
+  time ptunix <hex> <pow10>      -> "ok <sec> <nsec>" | "E syntax" | "E range"
+  time puint <hex>               -> "<v> <0|1>"   (jsonwire.ParseUint)
+  time negate <sec> <nsec>       -> "<sec> <nsec>"
+  time padded <n> <max10>        -> hex of appendPaddedBase10(nil, n, max10)
+  time ppadded <hex> <max10>     -> "<n> <0|1>"
+  time dec2 <hex>                -> "<n>"
 -/
 import JsonV.Oracle.Util
+import JsonV.Model.Time
 
 namespace JsonV.Oracle.Time
-open JsonV JsonV.Oracle
+open JsonV JsonV.Oracle JsonV.Model.Time
+
+def errStr : Err → String
+  | .syntax => "E syntax"
+  | .range => "E range"
+  | .inaccurate => "E inaccurate"
+
+/-! Exact evaluation of the float branch of `mayParseUnit` for a fraction made of decimal digits only:
+`uint64(math.Round(strconv.ParseFloat("0."+frac, 64) * float64(unit)))` with IEEE-754 binary64
+round-to-nearest-even for the parse and for the product, and round-half-away-from-zero for math.Round.
+A double is represented as `m * 2^(-e)` with `m < 2^53`, `e ≤ 1074`. -/
+
+/-- round-to-nearest-even of `p / q` (q > 0) to an integer. -/
+def rne (p q : Nat) : Nat :=
+  let f := p / q
+  let r := p % q
+  if 2 * r < q then f else if 2 * r > q then f + 1 else if f % 2 = 0 then f else f + 1
+
+/-- nearest double to `p / q` (`0 < p`, `0 < q`, value `< 2^53`): returns `(m, e)` meaning `m / 2^e`, `e ≤ 1074`. -/
+def toDouble (p q : Nat) : Nat × Nat :=
+  -- find the largest e ≤ 1074 with p*2^e/q < 2^53 (value < 2^53 guarantees e = 0 works)
+  let rec go (fuel e : Nat) : Nat :=
+    match fuel with
+    | 0 => e
+    | fuel + 1 => if e < 1074 ∧ p * 2 ^ (e + 1) / q < 2 ^ 53 then go fuel (e + 1) else e
+  let e := go 1100 0
+  let m := rne (p * 2 ^ e) q
+  if m = 2 ^ 53 ∧ e > 0 then (2 ^ 52, e - 1) else (m, e)
+
+def allDigits (b : Bytes) : Bool := b.all isDigit
+def decVal (b : Bytes) : Nat := b.foldl (fun a c => a * 10 + digitVal c) 0
+
+/-- the float branch for digit-only fractions; `none` for anything else is NOT claimed: see `floatFrac`. -/
+def floatFracDigits (frac : Bytes) (unit : Nat) : Nat :=
+  let p := decVal frac
+  if p = 0 then 0 else
+  let (m, e) := toDouble p (10 ^ frac.length)            -- f = m / 2^e
+  if m = 0 then 0 else
+  -- product f * unit, rounded to a double: (m*unit) / 2^e
+  let (m2, e2) := toDouble (m * unit) (2 ^ e)
+  -- math.Round: half away from zero on the exact double m2 / 2^e2
+  (2 * m2 + 2 ^ e2) / 2 ^ (e2 + 1)
+
+/-- Oracle instances of the model parameter: exact for digit-only fractions.  For other fractions (e.g. "1.e5H",
+where strconv.ParseFloat decides) the two instances answer differently (error / 0); when the final results
+differ the oracle answers "U" (not modelled) instead of guessing. -/
+def floatFracA : FloatFrac := fun frac unit =>
+  if frac.length > 0 ∧ allDigits frac then some (floatFracDigits frac unit) else none
+def floatFracB : FloatFrac := fun frac unit =>
+  if frac.length > 0 ∧ allDigits frac then some (floatFracDigits frac unit) else some 0
 
 def handle (op : String) (args : List String) : String :=
   match op, args with
+  | "durB10", [d, p] =>
+    match d.toInt?, p.toNat? with
+    | some d, some p => hexOfBytes (appendDurationBase10 [] d p)
+    | _, _ => badArgs
+  | "pdurB10", [h, p] =>
+    match bytesOfHex h, p.toNat? with
+    | some b, some p => match parseDurationBase10 b p with
+      | .ok d => s!"ok {d}"
+      | .error e => errStr e
+    | _, _ => badArgs
+  | "durISO", [d] =>
+    match d.toInt? with
+    | some d => hexOfBytes (appendDurationISO8601 [] d)
+    | none => badArgs
+  | "pdurISO", [h] =>
+    match bytesOfHex h with
+    | some b =>
+      let (d, e, fl) := parseDurationISO8601 floatFracA b
+      let (d2, e2, _) := parseDurationISO8601 floatFracB b
+      let pre := if fl then "F " else ""
+      if d ≠ d2 ∨ e ≠ e2 then "U" else
+      match e with
+      | none => s!"{pre}ok {d}"
+      | some .inaccurate => s!"{pre}inacc {d}"
+      | some e => pre ++ errStr e
+    | none => badArgs
+  | "tunix", [s, n, p] =>
+    match s.toInt?, n.toInt?, p.toNat? with
+    | some s, some n, some p => hexOfBytes (appendTimeUnix [] s n p)
+    | _, _, _ => badArgs
+  | "ptunix", [h, p] =>
+    match bytesOfHex h, p.toNat? with
+    | some b, some p => match parseTimeUnix b p with
+      | .ok (s, n) => s!"ok {s} {n}"
+      | .error e => errStr e
+    | _, _ => badArgs
+  | "puint", [h] =>
+    match bytesOfHex h with
+    | some b => let (v, ok) := parseUint b; s!"{v} {boolStr ok}"
+    | none => badArgs
+  | "negate", [s, n] =>
+    match s.toInt?, n.toInt? with
+    | some s, some n => let (a, b) := negateSecNano s n; s!"{a} {b}"
+    | _, _ => badArgs
+  | "padded", [n, m] =>
+    match n.toNat?, m.toNat? with
+    | some n, some m => hexOfBytes (appendPaddedBase10 [] n m)
+    | _, _ => badArgs
+  | "ppadded", [h, m] =>
+    match bytesOfHex h, m.toNat? with
+    | some b, some m => let (n, ok) := parsePaddedBase10 b m; s!"{n} {boolStr ok}"
+    | _, _ => badArgs
+  | "dec2", [h] =>
+    match bytesOfHex h with
+    | some b => s!"{(parseDec2 b).toNat}"
+    | none => badArgs
   | _, _ => "ERR unimplemented"
 
 end JsonV.Oracle.Time
